@@ -52,6 +52,7 @@ fn main() {
             "C05" => checks::c05::replay(&v),
             "C06" => checks::c06::replay(&v),
             "C07" => checks::c07::replay(&v),
+            "C08" => checks::c08::replay(&v),
             "C10" => checks::c10::replay(&v),
             "C12" => checks::c12::replay(&v),
             "C13" => checks::c13::replay(&v),
@@ -76,6 +77,7 @@ fn main() {
         "C05" => checks::c05::run(tier, seed),
         "C06" => checks::c06::run(tier, seed),
         "C07" => checks::c07::run(tier, seed),
+        "C08" => checks::c08::run(tier, seed),
         "C10" => checks::c10::run(tier, seed),
         "C12" => checks::c12::run(tier, seed),
         "C13" => checks::c13::run(tier, seed),
